@@ -1347,7 +1347,8 @@ EbErrorType read_film_grain_params(EbDecHandle *dec_handle, Bitstrm *bs, AomFilm
         return EB_ErrorNone;
     }
     grain_params->num_y_points = dec_get_bits(bs, 4);
-    assert(grain_params->num_y_points <= 14);
+    if (grain_params->num_y_points > 14)
+        return EB_Corrupt_Frame;
     PRINT_FRAME("num_y_points", grain_params->num_y_points);
     for (i = 0; i < grain_params->num_y_points; i++) {
         grain_params->scaling_points_y[i][0] = dec_get_bits(bs, 8);
@@ -1371,7 +1372,8 @@ EbErrorType read_film_grain_params(EbDecHandle *dec_handle, Bitstrm *bs, AomFilm
     } else {
         grain_params->num_cb_points = dec_get_bits(bs, 4);
         PRINT_FRAME("num_cb_points", grain_params->num_cb_points);
-        assert(grain_params->num_cb_points <= 10);
+        if (grain_params->num_cb_points > 10)
+            return EB_Corrupt_Frame;
         for (i = 0; i < grain_params->num_cb_points; i++) {
             grain_params->scaling_points_cb[i][0] = dec_get_bits(bs, 8);
             grain_params->scaling_points_cb[i][1] = dec_get_bits(bs, 8);
@@ -1383,7 +1385,8 @@ EbErrorType read_film_grain_params(EbDecHandle *dec_handle, Bitstrm *bs, AomFilm
         }
         grain_params->num_cr_points = dec_get_bits(bs, 4);
         PRINT_FRAME("num_cr_points", grain_params->num_cr_points);
-        assert(grain_params->num_cr_points <= 14);
+        if (grain_params->num_cr_points > 10)
+            return EB_Corrupt_Frame;
         for (i = 0; i < grain_params->num_cr_points; i++) {
             grain_params->scaling_points_cr[i][0] = dec_get_bits(bs, 8);
             grain_params->scaling_points_cr[i][1] = dec_get_bits(bs, 8);
@@ -1945,6 +1948,10 @@ EbErrorType read_uncompressed_header(Bitstrm *bs, EbDecHandle *dec_handle_ptr, O
     }
     if (frame_is_intra) {
         read_frame_size(bs, seq_header, frame_info, frame_size_override_flag);
+        // the picture buffers are sized for the sequence maximum
+        if (frame_info->frame_size.frame_width > seq_header->max_frame_width ||
+            frame_info->frame_size.frame_height > seq_header->max_frame_height)
+            return EB_Corrupt_Frame;
         read_render_size(bs, frame_info);
         if (frame_info->allow_screen_content_tools && frame_info->frame_size.render_width) {
             if (frame_info->allow_screen_content_tools &&
@@ -2008,6 +2015,9 @@ EbErrorType read_uncompressed_header(Bitstrm *bs, EbDecHandle *dec_handle_ptr, O
             read_frame_size(bs, seq_header, frame_info, frame_size_override_flag);
             read_render_size(bs, frame_info);
         }
+        if (frame_info->frame_size.frame_width > seq_header->max_frame_width ||
+            frame_info->frame_size.frame_height > seq_header->max_frame_height)
+            return EB_Corrupt_Frame;
         if (frame_info->force_integer_mv)
             frame_info->allow_high_precision_mv = 0;
         else {
@@ -2080,6 +2090,9 @@ EbErrorType read_uncompressed_header(Bitstrm *bs, EbDecHandle *dec_handle_ptr, O
     generate_next_ref_frame_map(dec_handle_ptr);
 
     read_tile_info(bs, &frame_info->tiles_info, seq_header, frame_info);
+    if (frame_info->tiles_info.context_update_tile_id >=
+        frame_info->tiles_info.tile_cols * frame_info->tiles_info.tile_rows)
+        return EB_Corrupt_Frame;
     read_quantization_params(
         bs, &frame_info->quantization_params, &seq_header->color_config, num_planes);
     read_segmentation_params(bs, dec_handle_ptr, frame_info);
